@@ -229,6 +229,28 @@ def gen_cases(ctx, n):
         for d in desc:
             d["toks"] = [list(pc.fix_tok(t)) for t in d["toks"]]
         cases.append((text, cfg, ops, desc))
+    # relative branches to a label at the edges of the 8-bit distance, forwards and backwards, with pseudo-operations of
+    # two instructions (and, where the mode drops them, debugging operations) in between (seed C04i accepted +128)
+    for d in (126, 127, 128, 129, -127, -128, -129):
+        for variant in range(2):
+            n = abs(d)
+            body = ["NOP()"] * (n - 1) if d > 0 else ["NOP()"] * n
+            if variant == 1:
+                body = ["SET(R1, 7)"] * 3 + body[6:]          # 3 x 2 instructions in place of 6 NOPs
+                body.insert(rng.randrange(len(body)), "print_reg(R1)")
+            br = rng.choice(["BRR", "BZR", "BNZR", "BCR"])
+            lines = ["%s(edge)" % br] + body + ["LABEL(edge)", "HALT()"] if d > 0 else ["LABEL(edge)"] + body + ["%s(edge)" % br, "HALT()"]
+            cfg = pc.settings_for(rng)
+            if variant == 1 and cfg["mode"] not in ("assemble", "preprocess"):
+                lines = [l for l in lines if l != "print_reg(R1)"]      # it would occupy a slot in run/debug mode
+            text = "\n".join(lines) + "\n"
+            ops, pm = pc.real_parse(text, cfg)
+            if ops is None or pm.get("errors"):
+                continue
+            desc = [oc.describe_real_op(o) for o in ops]
+            for dd in desc:
+                dd["toks"] = [list(pc.fix_tok(t)) for t in dd["toks"]]
+            cases.append((text, cfg, ops, desc))
     return cases
 
 
